@@ -39,7 +39,8 @@ class C27(Prop):
              "child process under strace, so that the write(2) calls per file are observed; the real reader functions are "
              "run on every recorded segment cut at every box boundary +-8 and at sampled offsets, with and without zero tails.",
         note="FIXED FINDING (2f5314e): a late video key frame was discarded and the non-sync frames after it were written, so "
-             "a segment could begin with undecodable video. REFUTED for two video tracks (C27_starts_on_sync_two_video_"
+             "a segment could begin with undecodable video. KNOWN FINDING (segmenter: name-collision): with a segment duration below the lag between two tracks (needs recordSegmentDuration < 1 s) consecutive segments get the same start time and file name and truncate each other. " 
+             "REFUTED for two video tracks (C27_starts_on_sync_two_video_"
              "refuted): the switch follows the key frames of one track. Observed by strace and only tested, not modelled "
              "byte by byte: the duration rewrite is ~100 one-byte write(2) calls (go-mp4 marshals the mvhd payload byte by "
              "byte into the unbuffered file), so a torn rewrite is a realistic state; the theorems hold for every moov "
